@@ -46,8 +46,53 @@ class Hang(Exception):
     """the daemon or a client did not react within HANG seconds"""
 
 
+class Overflow(Hang):
+    """the daemon found no buffer for the next frame ("queue overflow": it stops reading the device and spins)"""
+
+
+class DeviceClosed(Hang):
+    """the daemon closed the capture file handle under its acquisition thread (the cancelled thread did not stop in
+    time): the device stays open for the daemon but delivers nothing any more"""
+
+
 class DaemonDied(Exception):
     pass
+
+
+def _die_with_parent():
+    """preexec_fn of the processes the harness starts: they get SIGKILL when the check process goes away, however
+    that happens (a killed check must not leave a daemon behind)"""
+    try:
+        import ctypes
+        ctypes.CDLL("libc.so.6", use_errno=True).prctl(1, signal.SIGKILL, 0, 0, 0)     # PR_SET_PDEATHSIG
+    except Exception:
+        pass
+
+
+_LIVE = set()           # daemons not yet stopped: stopped at interpreter exit and on SIGTERM / SIGINT / SIGHUP
+
+
+def _stop_all(*a):
+    for d in list(_LIVE):
+        try:
+            d.stop(fast=True)
+        except Exception:
+            pass
+
+
+def _on_signal(sig, frame):
+    _stop_all()
+    raise SystemExit(128 + sig)         # unwinds the main thread: the finally blocks of the check remove its scratch files
+
+
+import atexit
+atexit.register(_stop_all)
+for _sig in (signal.SIGTERM, signal.SIGHUP):
+    try:
+        if signal.getsignal(_sig) == signal.SIG_DFL:
+            signal.signal(_sig, _on_signal)
+    except (ValueError, OSError):
+        pass            # not the main thread
 
 
 # ------------------------------------------------------------------------------------------ daemon
@@ -71,6 +116,8 @@ class Daemon:
         self.stderr_path = os.path.join(self.dir, "stderr")
         self.proc = None
         self.tick_fd = -1
+        self.n_overflow = 0
+        _LIVE.add(self)
         try:
             self.tick_fd = os.open(self.fifo, os.O_RDWR | os.O_NONBLOCK)     # keeps the FIFO alive, never blocks
             r, w = os.pipe()
@@ -84,8 +131,9 @@ class Daemon:
             if maxclients:
                 cmd += ["-maxclients", str(maxclients)]
             self.cmd = cmd
-            self.proc = subprocess.Popen(cmd, pass_fds=[w], env=env, stdin=subprocess.DEVNULL,
-                                         stdout=subprocess.DEVNULL, stderr=open(self.stderr_path, "wb"))
+            with open(self.stderr_path, "wb") as errf:
+                self.proc = subprocess.Popen(cmd, pass_fds=[w], env=env, stdin=subprocess.DEVNULL,
+                                             stdout=subprocess.DEVNULL, stderr=errf, preexec_fn=_die_with_parent)
             os.close(w)
             self.reader = threading.Thread(target=self._read_trace, args=(r,), daemon=True)
             self.reader.start()
@@ -106,6 +154,11 @@ class Daemon:
                 *lines, buf = buf.split(b"\n")
                 evs = []
                 for ln in lines:
+                    if b'"e":"overflow"' in ln:
+                        # a daemon without a buffer spins: the first lines are kept, the rest only counted
+                        self.n_overflow += 1
+                        if self.n_overflow > 3:
+                            continue
                     try:
                         evs.append(json.loads(ln))
                     except ValueError:
@@ -132,6 +185,12 @@ class Daemon:
                 while i < len(self.events):
                     if pred(self.events[i]):
                         return i
+                    if self.events[i]["e"] == "overflow":
+                        # no buffer for the next frame: the daemon (or its acquisition thread) spins and never gets idle
+                        raise Overflow("daemon reports \"queue overflow\" (no buffer for the next frame) while the harness waits for " + what)
+                    if self.events[i]["e"] == "devclosed":
+                        raise DeviceClosed("daemon closed the capture file handle %s under its acquisition thread (stop_acq_thread); "
+                                           "the harness waits for %s" % (self.events[i].get("fd"), what))
                     i += 1
                 if self.eof:
                     raise DaemonDied("daemon trace ended while waiting for " + what)
@@ -201,13 +260,16 @@ class Daemon:
         except OSError:
             return ""
 
-    def stop(self):
+    def stop(self, fast=False):
         """terminate (SIGTERM -> clean shutdown incl. leak check), collect exit status and stderr,
-        remove socket, FIFO and directory.  Safe to call twice."""
+        remove socket, FIFO and directory.  Safe to call twice.  fast: the check itself is going away - kill."""
         rc = None
         if getattr(self, "stopped", False):
             return getattr(self, "rc", None)
         self.stopped = True
+        _LIVE.discard(self)
+        if fast and self.proc is not None and self.proc.poll() is None:
+            self.proc.kill()
         if self.proc is not None:
             if self.proc.poll() is None:
                 self.proc.send_signal(signal.SIGTERM)
@@ -558,8 +620,9 @@ class LibClients:
         self.d = daemon
         self.drv = build.build_driver("drv_proxycl", variant)
         self.stderr_path = os.path.join(daemon.dir, "cl-stderr-%d" % id(self))
-        self.p = subprocess.Popen([self.drv], stdin=subprocess.PIPE, stdout=subprocess.PIPE,
-                                  stderr=open(self.stderr_path, "wb"), env=build.san_env(), text=True, bufsize=1)
+        with open(self.stderr_path, "wb") as errf:
+            self.p = subprocess.Popen([self.drv], stdin=subprocess.PIPE, stdout=subprocess.PIPE, stderr=errf,
+                                      env=build.san_env(), text=True, bufsize=1, preexec_fn=_die_with_parent)
         self.fd = {}
         self.acc = {}
 
@@ -695,6 +758,7 @@ class Session:
         self.d = Daemon(None, **daemon_args)
         self.conns = []             # every RawClient ever made, in accept order
         self.obs = []               # (trace position, connection, record)
+        self.closed_acc = {}        # connections of other clients (client library): accept line -> trace position of their close
 
     def connect(self, name):
         c = RawClient(self.d, self.lay, name)
@@ -773,7 +837,7 @@ class Session:
             k = e["e"]
             fd = e.get("c")
             if k == "accept":
-                cur[fd] = dict(conn=by_acc.get(i), nlab=0, pend=None, wr=False)
+                cur[fd] = dict(conn=by_acc.get(i), acc=i, nlab=0, pend=None, wr=False)
                 emit(dict(e="accept", c=fd), i)
             elif k == "rcv":
                 st = cur.get(fd)
@@ -819,6 +883,8 @@ class Session:
                     if conn is not None and conn.hdr_at is not None:
                         cause = "hdr"
                     elif conn is not None and conn.closed_at is not None and conn.closed_at <= i:
+                        cause = "eof"
+                    elif conn is None and st is not None and self.closed_acc.get(st["acc"], i + 1) <= i:
                         cause = "eof"
                     if cause == "hdr" and st is not None:
                         cur[fd] = st
